@@ -89,7 +89,7 @@ class C11(Prop):
             if rng.random() < 0.25:
                 # completion-driving play: the other documented cause (solved, target reached, all clean ...) can then fall
                 # on the very step of the time limit - the episode must still end there, not a step later
-                w = {"COMPLETE": 1.0}
+                w = {"COMPLETE": 1.0} if rng.random() < 0.5 else {"COMPLETE": 3.0, "SURVIVE": 1.0}
             ill = float(rng.choice([0.0, 0.0, 0.05]))
             return Plan(w, illegal_rate=ill, max_steps=min(tl + 2, 4200), sticky=bool(rng.random() < 0.6))
         w = swarm_weights(rng, ["LEGAL_UNIFORM", "MASK_UNIFORM", "UNIFORM_INSPEC", "ILLEGAL_BIASED", "SURVIVE", "LEGAL_FIRST", "LEGAL_LAST"])
@@ -99,7 +99,8 @@ class C11(Prop):
     def runs_for(self, adapter, cfg, tier):
         tl = cfg.get("tl", 0)
         if adapter.name in TL_ENVS and tl is None:
-            return 6  # default limits are long (up to 4000 steps)
+            # default limits are long (up to 4000 steps) in some environments; where they are short, more runs are affordable
+            return 6 if adapter.name in ("Snake", "PacMan", "RobotWarehouse", "SlidingTilePuzzle", "Tetris") else 18
         return self.quick_runs
 
 
